@@ -448,4 +448,13 @@ MUTANTS = [
     M("E5-2-mask-no-reset", ["C02"], (FE, "        self.current_used_cards = 0;", ""), base="E5-2"),
     M("E5-2-mask-eq", ["C02"], (FE, "            if self.current_used_cards & hole_cards != 0 {", "            if self.current_used_cards & hole_cards == hole_cards {"), base="E5-2"),
     M("E5-2-mask-not-recorded", ["C02"], (FE, "            self.current_used_cards |= hole_cards;", ""), base="E5-2"),
+    M("benign-B8-3-half-open-ranges", ["C05", "C08", "C09", "C13"], base="B8-3", benign=True),
+    M("B8-3-inclusive-no-plus", ["C13"], (RR, "            end: index_of(end) + 1,", "            end: index_of(end),"), base="B8-3"),
+    M("B8-3-inclusive-plus-2", ["C13"], (RR, "            end: index_of(end) + 1,", "            end: index_of(end) + 2,"), base="B8-3"),
+    M("B8-3-slice-inclusive", ["C13"], (RR, "        RANKS[self.start..self.end].to_vec().into_iter()", "        RANKS[self.start..=self.end].to_vec().into_iter()"), base="B8-3"),
+    M("benign-B7-2-computed-bit", ["C02", "C08", "C13"], base="B7-2", benign=True),
+    M("B7-2-factor-3", ["C13"], (CD, "1u64 << (4 * rank_index + suit_index)", "1u64 << (3 * rank_index + suit_index)"), base="B7-2"),
+    M("B7-2-swapped", ["C13"], (CD, "1u64 << (4 * rank_index + suit_index)", "1u64 << (4 * suit_index + rank_index)"), base="B7-2"),
+    M("benign-D5-5-mask-shift", ["C13"], base="D5-5", benign=True),
+    M("D5-5-shift-3", ["C13"], (CD, "ACE_MASK << (4 * u32::from(u8::from(card.0)))", "ACE_MASK << (3 * u32::from(u8::from(card.0)))"), base="D5-5"),
 ]
